@@ -1213,8 +1213,8 @@ fn account(acc: &mut Acc, sc: &Scenario, out: &RunOut, reference: &Reference, ro
     stats.probe("fault_on_include_file", fired.iter().any(|e| e.path.ends_with(".inc")));
     if let Some(p) = prof {
         // determinism: identical to the profile up to the first event that was interfered with
-        let a: Vec<String> = p.iter().map(event_line).collect();
-        let b: Vec<String> = out.trace.iter().map(event_line).collect();
+        let a: Vec<String> = canon_event_lines(p);
+        let b: Vec<String> = canon_event_lines(&out.trace);
         let first = out.trace.iter().position(|e| e.rule != -1).unwrap_or(b.len());
         let n = first.min(a.len()).min(b.len());
         if sc.read_cap == 0 && sc.write_cap == 0 && sc.fsize_limit.is_none() && sc.stdout == "pipe" {
